@@ -65,6 +65,8 @@ def regex_of(p, anchor=False):
         if not p['s']:
             return quote_meta(NEVER)
         return '|'.join(('^' if anchor else '') + quote_meta(FRAGS[i - 1]) for i in p['s'])
+    if p['f'] == 'empty':
+        return ''       # the empty regular expression: matches every message
     frag = FRAGS[p['k'] - 1]
     if p['f'] == 'icase':
         return '(?i)' + quote_meta(frag.swapcase())
@@ -100,11 +102,15 @@ def put(path, text):
         f.write(text)
 
 
-def make_layout(base, cfg, cfgb):
+def make_layout(base, cfg, cfgb, git='dir'):
     """base/top/{repo,repo-b,other}; cfg None = no configuration anywhere."""
     top = os.path.join(base, 'top')
     for repo in ('repo', 'repo-b'):
-        os.makedirs(os.path.join(top, repo, '.git'), exist_ok=True)
+        if repo == 'repo' and git == 'file':
+            # linked worktree / submodule checkout: .git is a regular file
+            put(os.path.join(top, repo, '.git'), 'gitdir: ../other/gitdir-of-repo\n')
+        else:
+            os.makedirs(os.path.join(top, repo, '.git'), exist_ok=True)
         put(os.path.join(top, repo, '.github', 'workflows', 'a.yml'), WORKFLOW)
     put(os.path.join(top, 'repo', '.github', 'workflows', 'sub', 'b.yml'), WORKFLOW)
     put(os.path.join(top, 'repo', '.github', 'workflows', 'y.yml'), WORKFLOW_Y)
@@ -310,7 +316,7 @@ def ids_of(got, v, base, base_diags):
 
 
 def cfg_key(v):
-    return json.dumps([v['cfg'], v['cfgb']], sort_keys=True)
+    return json.dumps([v['cfg'], v['cfgb'], v.get('git', 'dir')], sort_keys=True)
 
 
 def check_no_outer_repo(d):
@@ -363,7 +369,7 @@ def run(ck, tier):
     seen = set()
     uniq = []
     for v in vecs:
-        k = json.dumps({x: v[x] for x in ('cwdk', 'sp', 'argn', 'via', 'cvia', 'cli', 'cfg', 'ff')}, sort_keys=True)
+        k = json.dumps({x: v[x] for x in ('cwdk', 'sp', 'argn', 'via', 'cvia', 'git', 'cli', 'cfg', 'ff')}, sort_keys=True)
         if k not in seen:
             seen.add(k)
             uniq.append(v)
@@ -376,7 +382,7 @@ def run(ck, tier):
     for v in vecs:
         k = cfg_key(v)
         if k not in layouts:
-            layouts[k] = make_layout(os.path.join(sd, 'L%d' % (len(layouts) + 1)), v['cfg'], v['cfgb'])
+            layouts[k] = make_layout(os.path.join(sd, 'L%d' % (len(layouts) + 1)), v['cfg'], v['cfgb'], v['git'])
 
     def one(iv):
         i, v = iv
@@ -419,7 +425,7 @@ def run(ck, tier):
         v2 = judge(v, r2, base, base_diags, mode)
         if v2 is None:
             raise Inconclusive('violation did not reproduce: ' + text)
-        rp = {'kind': kind, 'vector': v, 'mode': mode, 'cwd_kind': v['cwdk'], 'spelling': v['sp'], 'via': v['via'], 'cwd_via': v['cvia'], 'args': v['argn'],
+        rp = {'kind': kind, 'vector': v, 'mode': mode, 'cwd_kind': v['cwdk'], 'spelling': v['sp'], 'via': v['via'], 'cwd_via': v['cvia'], 'git': v['git'], 'args': v['argn'],
               'config_source': v['cfg']['src'], 'config_kind': v['cfg']['k'], 'flag_fault': v['ff'],
               'exit_status': r['rc'], 'accepted_exit_statuses': v['exits']}
         rp.update(extra)
@@ -496,7 +502,7 @@ def replay(path):
     check_no_outer_repo(sd)
     binary = vplib.build_actionlint()
     base_diags = baseline(binary, make_layout(os.path.join(sd, 'L0'), None, None))
-    base = make_layout(os.path.join(sd, 'L1'), v['cfg'], v['cfgb'])
+    base = make_layout(os.path.join(sd, 'L1'), v['cfg'], v['cfgb'], v.get('git', 'dir'))
     r = execute(binary, v, base, rp['mode'])
     print('cwd', r['cwd'])
     print('argv', r['argv'])
